@@ -102,7 +102,41 @@ type regStep struct {
 	All   []int      `json:"all"`
 	Lv    []regLv    `json:"lv"`
 	Pr    []regProbe `json:"pr"`
+	Nest  []regNest  `json:"nest"`  // the same questions asked from inside the library's own writing
 	Calls int        `json:"calls"` // library calls made for this observation
+}
+
+// regNestLv: the name / text / JSON round trips of one level, made in a nested context (same
+// member names as the lookup part of regLv)
+type regNestLv struct {
+	L     int   `json:"l"`
+	Str   []int `json:"str"`
+	Pstr  int   `json:"pstr"`
+	Txtok bool  `json:"txtok"`
+	Txt   []int `json:"txt"`
+	Utxt  int   `json:"utxt"`
+	Jsok  bool  `json:"jsok"`
+	Js    []int `json:"js"`
+	Ujs   int   `json:"ujs"`
+	Ejs   int   `json:"ejs"`
+	Jdec  []int `json:"jdec"`
+}
+
+// regNest: what the level API answered while the library itself was in the middle of writing a
+// record.  Ctx names the place the questions were asked from:
+//
+//	"warn"     inside the destination's Write of the default logger, while ParseLevel reports an
+//	           unknown name through it
+//	"warn-go"  the same moment, asked by another goroutine (Write waits for it)
+//	"rec"      inside the destination's Write of an ordinary record
+//	"val"      inside the String method of a value being formatted for an ordinary record
+//
+// Ran is false when the library never came to that place (nothing is claimed then).
+type regNest struct {
+	Ctx string      `json:"ctx"`
+	Ran bool        `json:"ran"`
+	Lv  []regNestLv `json:"lv"`
+	Pr  []regProbe  `json:"pr"`
 }
 
 func init() {
@@ -146,6 +180,10 @@ type regChild struct {
 	painter *slog.Entry
 	ncalls  int
 	probeSt []string
+	nestW   *regNestWriter
+	nestDef *slog.Entry // stands in as the package default logger while ParseLevel reports
+	nestRec *slog.Entry // an ordinary logger writing to the nested destination
+	nestVal *slog.Entry // an ordinary logger writing to a recorder (the value asks the questions)
 }
 
 func registryChild(args []string) int {
@@ -168,6 +206,10 @@ func registryChild(args []string) int {
 	}
 	c.router = slog.New("router").SetLevel(slog.AlwaysLevel).SetWriter(getWriter(1)).SetErrorWriter(getWriter(2))
 	c.painter = slog.New("painter").SetLevel(slog.AlwaysLevel).SetColorMode(true).SetWriter(getWriter(1)).SetErrorWriter(getWriter(2))
+	c.nestW = &regNestWriter{c: c}
+	c.nestDef = slog.New("regdefault").SetLevel(slog.WarnLevel).SetWriter(c.nestW).SetErrorWriter(c.nestW)
+	c.nestRec = slog.New("regnested").SetLevel(slog.AlwaysLevel).SetWriter(c.nestW).SetErrorWriter(c.nestW)
+	c.nestVal = slog.New("regvalue").SetLevel(slog.AlwaysLevel).SetWriter(getWriter(1)).SetErrorWriter(getWriter(2))
 	is.SetDebugMode(false) // SetLevel(Debug/Trace) switches these on as a side effect
 	is.SetTraceMode(false)
 	for _, p := range job.Probes {
@@ -294,8 +336,173 @@ func (c *regChild) observe() regStep {
 		}
 	}
 	sink.reset()
+	st.Nest = c.observeNested(levels)
+	sink.reset()
 	st.Calls = c.ncalls - start
 	return st
+}
+
+// ---- the same questions, asked from inside the library's own writing
+
+// regNestWriter is a destination that, the first time it is written to after being armed, asks the
+// level API the round-trip questions for every level (a destination that resolves the severity names
+// it finds in a line does this).  A Write that arrives while it is asking (ParseLevel of an unknown
+// probe string reports through the default logger again) is swallowed.
+type regNestWriter struct {
+	c     *regChild
+	armed *regNest
+	lv    []int
+	busy  bool
+	viaGo bool
+}
+
+func (w *regNestWriter) Write(p []byte) (int, error) {
+	if w.busy || w.armed == nil {
+		return len(p), nil
+	}
+	w.busy = true
+	n := w.armed
+	w.armed = nil
+	if w.viaGo {
+		done := make(chan struct{})
+		go func() { defer close(done); w.c.nestedLookups(n, w.lv) }()
+		<-done
+	} else {
+		w.c.nestedLookups(n, w.lv)
+	}
+	w.busy = false
+	return len(p), nil
+}
+
+// regNestValue asks the questions from its String method
+type regNestValue struct{ w *regNestWriter }
+
+func (v regNestValue) String() string {
+	w := v.w
+	if !w.busy && w.armed != nil {
+		w.busy = true
+		n := w.armed
+		w.armed = nil
+		w.c.nestedLookups(n, w.lv)
+		w.busy = false
+	}
+	return "value"
+}
+
+func (c *regChild) nestedLookups(n *regNest, levels []int) {
+	n.Ran = true
+	for _, l := range levels {
+		n.Lv = append(n.Lv, c.roundTrips(slog.Level(l)))
+	}
+	done := map[string]bool{}
+	for _, s := range c.probeSt {
+		if !done[s] {
+			done[s] = true
+			n.Pr = append(n.Pr, regProbe{cps(s), c.parse(s)})
+		}
+	}
+}
+
+const regUnknownName = "c17-no-such-level"
+
+func (c *regChild) observeNested(levels []int) []regNest {
+	w := c.nestW
+	w.lv = levels
+	arm := func(ctx string, viaGo bool) *regNest {
+		n := &regNest{Ctx: ctx, Lv: []regNestLv{}, Pr: []regProbe{}}
+		w.armed, w.viaGo, w.busy = n, viaGo, false
+		return n
+	}
+	var res []regNest
+	// ParseLevel reports an unknown name through the package default logger
+	for _, viaGo := range []bool{false, true} {
+		ctx := "warn"
+		if viaGo {
+			ctx = "warn-go"
+		}
+		n := arm(ctx, viaGo)
+		saved := slog.Default()
+		slog.SetDefault(c.nestDef)
+		c.parse(regUnknownName)
+		slog.SetDefault(saved)
+		w.armed = nil
+		res = append(res, *n)
+	}
+	// an ordinary record
+	n := arm("rec", false)
+	guardInt(func() int { c.nestRec.Info("nested probe", "k", 1); return 0 })
+	w.armed = nil
+	res = append(res, *n)
+	// a value that is formatted for an ordinary record
+	n = arm("val", false)
+	guardInt(func() int { c.nestVal.Info("value probe", "v", regNestValue{w}); return 0 })
+	w.armed = nil
+	res = append(res, *n)
+	return res
+}
+
+// roundTrips: name, text form and JSON form of one level and their ways back
+func (c *regChild) roundTrips(l slog.Level) regNestLv {
+	o := regNestLv{L: int(l), Txt: []int{}, Js: []int{}, Jdec: []int{}}
+	var name string
+	o.Str = guardStr(func() string { name = l.String(); return name })
+	c.ncalls++
+	o.Pstr = c.parse(name)
+	o.Utxt = regERR
+	func() {
+		defer func() {
+			if p := recover(); p != nil {
+				o.Txtok, o.Utxt = false, regPANIC
+			}
+		}()
+		b, err := l.MarshalText()
+		if err != nil {
+			return
+		}
+		o.Txtok, o.Txt = true, cps(string(b))
+		l2 := slog.Level(regPANIC)
+		if err := (&l2).UnmarshalText(b); err == nil {
+			o.Utxt = int(l2)
+		}
+	}()
+	o.Ujs, o.Ejs = regERR, regERR
+	func() {
+		defer func() {
+			if p := recover(); p != nil {
+				o.Jsok, o.Ujs = false, regPANIC
+			}
+		}()
+		b, err := l.MarshalJSON()
+		if err != nil {
+			return
+		}
+		o.Jsok, o.Js = true, cps(string(b))
+		var dec string
+		if json.Unmarshal(b, &dec) == nil {
+			o.Jdec = cps(dec)
+		}
+		l2 := slog.Level(regPANIC)
+		if err := (&l2).UnmarshalJSON(b); err == nil {
+			o.Ujs = int(l2)
+		}
+	}()
+	func() {
+		defer func() {
+			if p := recover(); p != nil {
+				o.Ejs = regPANIC
+			}
+		}()
+		b, err := json.Marshal(l)
+		if err != nil {
+			return
+		}
+		l2 := slog.Level(regPANIC)
+		if err := json.Unmarshal(b, &l2); err == nil {
+			o.Ejs = int(l2)
+		}
+	}()
+	c.ncalls += 6
+	return o
 }
 
 // regMarshalOthers marshals two other levels (names of other lengths) in both forms: a result handed out
@@ -545,6 +752,7 @@ func registryMain(args []string) int {
 	prIn := &interner{ids: map[string]int{}}
 	root := &regNode{index: map[string]*regNode{}}
 	totalCalls, dead := 0, 0
+	nestRan := map[string]int{}
 	for bi, r := range results {
 		if r.err != nil {
 			// a child that died is an infrastructure problem for this property (nothing in C17
@@ -556,10 +764,29 @@ func registryMain(args []string) int {
 		node := root
 		for d, st := range r.steps {
 			ids := make([]int, 0, len(st.Lv))
+			// lvp: the round-trip part of each outside observation, interned in the shape of the nested
+			// ones - equal ids <=> the nested answers are the outside answers
+			lvp := make([]int, 0, len(st.Lv))
 			for _, lv := range st.Lv {
 				ids = append(ids, lvIn.id(lv))
+				lvp = append(lvp, lvIn.id(regNestLv{lv.L, lv.Str, lv.Pstr, lv.Txtok, lv.Txt, lv.Utxt, lv.Jsok, lv.Js, lv.Ujs, lv.Ejs, lv.Jdec}))
 			}
 			line := map[string]any{"d": d, "all": st.All, "lv": ids, "pr": prIn.id(map[string]any{"tab": st.Pr})}
+			nest := make([]map[string]any, 0, len(st.Nest))
+			for _, n := range st.Nest {
+				nids := make([]int, 0, len(n.Lv))
+				for _, lv := range n.Lv {
+					nids = append(nids, lvIn.id(lv))
+				}
+				if n.Pr == nil {
+					n.Pr = []regProbe{}
+				}
+				nest = append(nest, map[string]any{"ctx": n.Ctx, "ran": n.Ran, "lv": nids, "pr": prIn.id(map[string]any{"tab": n.Pr})})
+				if n.Ran {
+					nestRan[n.Ctx]++
+				}
+			}
+			line["nest"], line["lvp"] = nest, lvp
 			if d > 0 {
 				call := sc.Behaviours[bi].Calls[d-1]
 				tags := call.Tags
@@ -606,7 +833,7 @@ func registryMain(args []string) int {
 	lvIn.write(outdir + "/lv.ndjson")
 	prIn.write(outdir + "/pr.ndjson")
 	sum := map[string]any{"behaviours": len(sc.Behaviours), "dead": dead, "lines": tr.n,
-		"lv_defs": len(lvIn.items), "pr_defs": len(prIn.items), "library_calls": totalCalls}
+		"lv_defs": len(lvIn.items), "pr_defs": len(prIn.items), "library_calls": totalCalls, "nest_ran": nestRan}
 	b, _ := json.Marshal(sum)
 	os.WriteFile(outdir+"/summary.json", b, 0o644)
 	return 0
